@@ -350,49 +350,56 @@ def tasInsert (c : C) (topic : List Nat) (a : Nat) (site : String) : C :=
     else { c with s := { c.s with tas := some (t.insertOrUpdate topic a) } }
 
 /-- the alias stage of `process_send_v5_0_publish` when the topic is non-empty and no alias
-    was given: automatic mapping / replacement (only while connected) -/
+    was given: automatic mapping / replacement (only while connected).  fix (finding #12): a
+    rewrite is applied only when the rewritten packet still fits the peer's maximum size. -/
 def autoAlias (c : C) (p : Pkt) : C × Pkt :=
   if c.s.status = .connected then
     if c.s.autoMap then
       match c.s.tas with
       | some t =>
         match t.findByTopic p.topic with
-        | some a => (c, { p with topic := [], alias := some a })
+        | some a =>
+          let q := { p with topic := [], alias := some a }
+          if sizeOk c q then (c, q) else (c, p)
         | none =>
           let a := t.lruAlias
-          let c := tasInsert c p.topic a "topic_alias_send.rs:insert_or_update:assert"
-          (c, { p with alias := some a })
+          let q := { p with alias := some a }
+          if sizeOk c q then (tasInsert c p.topic a "topic_alias_send.rs:insert_or_update:assert", q) else (c, p)
       | none => (c, p)
     else if c.s.autoReplace then
       match c.s.tas with
       | some t =>
         match t.findByTopic p.topic with
-        | some a => (c, { p with topic := [], alias := some a })
+        | some a =>
+          let q := { p with topic := [], alias := some a }
+          if sizeOk c q then (c, q) else (c, p)
         | none => (c, p)
       | none => (c, p)
     else (c, p)
   else (c, p)
 
 def psV5PublishTail (c : C) (p : Pkt) (rel : Option Nat) : C :=
-  -- Receive Maximum stage; fix (finding #10): `>=`
+  let c := if p.qos > 0 ∧ c.s.sendMax.isSome then
+      (if c.s.sendCount ≥ 65535 then c.setPanic "core.rs:process_send_v5_0_publish:publish_send_count+=1" else c)
+      |> fun c => { c with s := { c.s with sendCount := (c.s.sendCount + 1) % 65536 } }
+    else c
+  if c.s.status = .connected then sendPostProcess (c.push (.send p rel)) else c
+
+/-- Receive Maximum stage (fix, findings #10/#11: `>=`, and *before* the alias table is
+    touched), then the alias stage.  fix (finding #11b): an alias is registered only by a
+    packet that is sent now. -/
+def psV5PublishAlias (c : C) (p : Pkt) (rel : Option Nat) (validated : Bool) : C :=
   let blocked : Bool := decide (p.qos > 0) && (match c.s.sendMax with | some m => decide (c.s.sendCount ≥ m) | none => false)
   if blocked then pubRefuseCleanup (c.err eRMExceeded) p.pid
-  else
-    let c := if p.qos > 0 ∧ c.s.sendMax.isSome then
-        (if c.s.sendCount ≥ 65535 then c.setPanic "core.rs:process_send_v5_0_publish:publish_send_count+=1" else c)
-        |> fun c => { c with s := { c.s with sendCount := (c.s.sendCount + 1) % 65536 } }
-      else c
-    if c.s.status = .connected then sendPostProcess (c.push (.send p rel)) else c
-
-def psV5PublishAlias (c : C) (p : Pkt) (rel : Option Nat) (validated : Bool) : C :=
-  if p.topic.isEmpty then
+  else if p.topic.isEmpty then
     let r := if validated then (some [], c) else validateTopicAlias c p.alias
     if !validated ∧ r.1.isNone then pubRefuseCleanup (r.2.err eNotAllowed) p.pid
     else psV5PublishTail r.2 p rel
   else match p.alias with
     | some a =>
       if validateTopicAliasRange c.s a then
-        psV5PublishTail (tasInsert c p.topic a "topic_alias_send.rs:insert_or_update:assert") p rel
+        let c := if c.s.status = .connected then tasInsert c p.topic a "topic_alias_send.rs:insert_or_update:assert" else c
+        psV5PublishTail c p rel
       else pubRefuseCleanup (c.err eNotAllowed) p.pid
     | none =>
       let r := autoAlias c p
@@ -682,27 +689,29 @@ def prV5PublishAlias (c : C) (p : Pkt) : C × Option Pkt :=
         | none => (c, some p)
         | some t => ({ c with s := { c.s with tar := some (t.insertOrUpdate p.topic a) } }, some p)
 
+/-- fix (finding #19): the alias stage runs first; flow-control and duplicate bookkeeping
+    only for a PUBLISH that passed it -/
 def prV5Publish (c : C) (parsed : Except Nat Pkt) : C :=
   match parsed with
   | .error e => if c.s.status = .connected then handleV5Error c e else c.err e
   | .ok p =>
-    let rmExceeded : Bool := match c.s.recvMax with
-      | some m => decide (c.s.publishRecv.length ≥ m)
-      | none => false
-    if p.qos > 0 ∧ p.pid.isNone then c.setPanic "core.rs:process_recv_v5_0_publish:packet_id().unwrap()"
-    else if p.qos > 0 ∧ rmExceeded then handleV5Error c eRMExceeded
-    else
-      let id := p.pid.getD 0
-      let already := p.qos = 2 ∧ id ∈ c.s.handled
-      let c := if p.qos > 0 then { c with s := { c.s with publishRecv := ins id c.s.publishRecv } } else c
-      let c := if p.qos = 2 then { c with s := { c.s with handled := ins id c.s.handled } } else c
-      let pubackSend := p.qos = 1 ∧ c.s.autoPub ∧ c.s.status = .connected
-      let pubrecSend := p.qos = 2 ∧ c.s.status = .connected ∧ (c.s.autoPub ∨ already)
-      let r := prV5PublishAlias c p
-      match r.2 with
-      | none => r.1
-      | some p' =>
-        let c := r.1
+    let r := prV5PublishAlias c p
+    match r.2 with
+    | none => r.1
+    | some p' =>
+      let c := r.1
+      let rmExceeded : Bool := match c.s.recvMax with
+        | some m => decide (c.s.publishRecv.length ≥ m)
+        | none => false
+      if p.qos > 0 ∧ p.pid.isNone then c.setPanic "core.rs:process_recv_v5_0_publish:packet_id().unwrap()"
+      else if p.qos > 0 ∧ rmExceeded then handleV5Error c eRMExceeded
+      else
+        let id := p.pid.getD 0
+        let already := p.qos = 2 ∧ id ∈ c.s.handled
+        let c := if p.qos > 0 then { c with s := { c.s with publishRecv := ins id c.s.publishRecv } } else c
+        let c := if p.qos = 2 then { c with s := { c.s with handled := ins id c.s.handled } } else c
+        let pubackSend := p.qos = 1 ∧ c.s.autoPub ∧ c.s.status = .connected
+        let pubrecSend := p.qos = 2 ∧ c.s.status = .connected ∧ (c.s.autoPub ∨ already)
         let c := if pubackSend then
             (if id = 0 then c.setPanic "core.rs:process_recv_v5_0_publish:puback.build().unwrap()" else c)
             |> fun c => psV5Puback c (mkAck c.cfg 5 .puback id)
